@@ -804,6 +804,36 @@ theorem encode_injective {f : Fmt} {ps : List Name} (hw : wellFormed f ps = true
   rw [h, b] at a
   simpa using a.symm
 
+/-! ### capacity of count and length fields: an accepted value never announces more than its digits can hold
+
+    In the format language a count is a FIELD (`int w`, `blob w k`), so its capacity `10^w - 1` is part of acceptance: a loop with more
+    items than the count field can announce, or a data area longer than its length prefix can announce, is not an accepted value, and
+    for accepted values `encode_length` gives the exact length.  (What the Python SETTERS let through is the other half:
+    Props/C13a.lean `slot_accepts_fits`, Gen/NitfSlots.lean.) -/
+
+theorem acc_int_lt {w : Nat} {e : Env} {v : Int} (h : acc (.int w) e (.int v) = true) : v < 10 ^ w := by
+  simp only [acc] at h
+  exact ((Sarpy.Props.C13.acceptInt_iff w v).mp h).2
+
+/-- a length-prefixed area: data + overflow field fit the `w` digits of the prefix -/
+theorem accBlob_lt {w k : Nat} {ofl : Int} {d : Bytes} (h : accBlob w k (.cons (.int ofl) (.raw d)) = true) :
+    ((d.length + k : Nat) : Int) < 10 ^ w := by
+  simp only [accBlob, Bool.and_eq_true, decide_eq_true_eq] at h
+  exact ((Sarpy.Props.C13.acceptInt_iff w _).mp h.1.1.2).2
+
+/-- a counted loop `x : int w ; y : loop (var x) item`: the number of items of an accepted value is the count field and below `10^w` -/
+theorem loop_count_lt {w : Nat} {x y : Name} {item tl : Fmt} {e : Env} {n : Int} {vs rest : Val}
+    (h : acc (.seq x (.int w) (.seq y (.loop (.var x) item) tl)) ((x, .int n) :: e) (.cons (.int n) (.cons vs rest)) = true) :
+    count vs = n.toNat ∧ ((count vs : Nat) : Int) < 10 ^ w := by
+  simp only [acc, Bool.and_eq_true, decide_eq_true_eq, Expr.eval, bindings, List.nil_append, lookup, if_true, natOf] at h
+  obtain ⟨hn, ⟨hc, _⟩, _⟩ := h
+  have hlt := ((Sarpy.Props.C13.acceptInt_iff w n).mp hn).2
+  refine ⟨hc, ?_⟩
+  rw [hc]
+  have : ((n.toNat : Nat) : Int) ≤ max n 0 := by omega
+  have h0 : (0 : Int) < 10 ^ w := pow_pos (by norm_num) _
+  omega
+
 /-! ### the encoding is a function of the field values alone (mutation histories)
 
     In the model an element IS its value: there is no other state.  So whatever sequence of re-assignments produced the
